@@ -307,3 +307,40 @@ Proof.
   rewrite IH; [|intros o' Ho'; apply Hos; right; exact Ho' | exact N1 | exact N2].
   destruct (containment_partial o pl f f' lg res Hwf E q) as [X|[X|[_ [_ X]]]]; [exact X | rewrite HD in X; contradiction | rewrite HD in X; contradiction].
 Qed.
+
+(* ------------------------------------------------------------------ exclusions hold whatever exists at the destination *)
+(* the destinations of an install_subdir rule contain nothing of a directory that is excluded or lies
+   below an excluded directory (do_copydir removes it from the walk: minstall.py:519-522), and no
+   excluded file (minstall.py:534-535) *)
+Lemma pruned_step_no_dests dst i w :
+  pruned (map normpath (sd_excl_dirs i)) (w_rel w) = true -> wstep_dests dst i w = [].
+Proof. intros H. unfold wstep_dests. rewrite H. reflexivity. Qed.
+
+Lemma excluded_entries_no_dests dst i w q :
+  In q (wstep_dests dst i w) ->
+  pruned (map normpath (sd_excl_dirs i)) (w_rel w) = false /\
+  ((exists d, In d (w_dirs w) /\ cp_mem (w_rel w ++ [fst d]) (map normpath (sd_excl_dirs i)) = false /\
+              q = cleanp (pjoin dst (w_rel w ++ [fst d]))) \/
+   (exists e, In e (w_files w) /\ cp_mem (w_rel w ++ [fst e]) (map normpath (sd_excl_files i)) = false /\
+              (q = cleanp (pjoin dst (w_rel w ++ [fst e])) \/ q = cleanp (dirname (pjoin dst (w_rel w ++ [fst e])))))).
+Proof.
+  unfold wstep_dests. destruct (pruned _ _); [intros []|]. intros H. split; [reflexivity|].
+  apply in_app_or in H as [H|H].
+  - apply in_map_iff in H as [d [<- Hd]]. apply filter_In in Hd as [Hd Hx]. left. exists d.
+    apply negb_true_iff in Hx. auto.
+  - apply in_flat_map in H as [e [He Hq]]. apply filter_In in He as [He Hx]. right. exists e.
+    apply negb_true_iff in Hx. split; [exact He|]. split; [exact Hx|]. destruct Hq as [<-|[<-|[]]]; auto.
+Qed.
+
+(* for every initial filesystem - in particular whatever already exists at the destination: directories
+   created by other rules, by an earlier installation, or present beforehand - a location that is not a
+   destination of a selected rule (sources minus exclusions) nor an ancestor of one is left exactly as it was *)
+Theorem unplanned_untouched_partial : forall o pl f f' lg r,
+  wf_plan o pl = true -> do_install o pl f = (f', lg, r) ->
+  forall q, ~ In q (planned_of o pl) -> (forall w, In w (planned_of o pl) -> ~ is_prefix q w) ->
+            lookup f' q = lookup f q.
+Proof.
+  intros o pl f f' lg r Hwf H q N1 N2.
+  destruct (no_extras_partial o pl f f' lg r Hwf H q) as [X|[X|[_ [_ [w [Hw Pw]]]]]]; [exact X | contradiction|].
+  exfalso. exact (N2 w Hw Pw).
+Qed.
